@@ -543,14 +543,19 @@ def _report(p, cfg, kind, hist, op, a, b):
 
 
 def bfs_shard(arg):
-    cfg, base, merge_reps = arg
+    cfg, base, merge_reps, state_cap = arg
     core.import_all_jinja()
     p = core.Part()
     _SIGS.clear()
     MEMO["on"] = True
-    res = e2.explore(make_system(cfg, base), ops_of, step, canon, absm, merge_reps=merge_reps, max_violations=100000)
+    res = e2.explore(make_system(cfg, base), ops_of, step, canon, absm, merge_reps=merge_reps, max_violations=100000,
+                     state_cap=state_cap)
     if not res.fixpoint:
         raise core.HarnessError(f"no fixpoint for {cfg}")
+    if res.states >= state_cap:
+        # never on a tree that agrees with the model (its largest configuration has < state_cap / 4 states); a
+        # diverging implementation can have a larger state space than the model predicts
+        p.count("state_caps_hit", 1)
     p.evals += res.transitions
     p.count("states", res.states)
     p.count("transitions", res.transitions)
@@ -699,7 +704,10 @@ def run(ctx: core.Ctx):
     ]
     cfgs = configurations(ctx.quick)
     # heaviest first is not possible (pmap shuffles), but shards are independent configurations
-    ctx.pmap(bfs_shard, [(c, base, 2 if (ctx.quick or NSTORES[c[0]] == 1) else 1) for c in cfgs])
+    state_cap = 6000 if ctx.quick else 100000
+    ctx.pmap(bfs_shard, [(c, base, 2 if (ctx.quick or NSTORES[c[0]] == 1) else 1, state_cap) for c in cfgs])
+    if ctx.counters.get("state_caps_hit"):
+        ctx.cap_hit(f"{ctx.counters['state_caps_hit']} configuration(s) stopped adding states at the state cap {state_cap}")
     depth = 4 if ctx.quick else 6
     flat_cfgs = [("dict", 1, True, ("a", "b"), (1, 2))]
     if not ctx.quick:
